@@ -215,6 +215,35 @@ def run(ctx):
             outs.append(r)
         exprs.append("map (fun ps => oqpsk_demod (oqpsk_mod None ps)) %s" % clist([clist(["(%s, %s)" % (cbool(a), cbool(q)) for a, q in c]) for c in cases[:120]]))
         meta.append(("oqpsk", nz, outs[:120]))
+        # batched and higher-dimensional inputs: every row is its own stream
+        for shape in ((3, 40), (2, 1, 12), (4, 6), (2, 3, 8)):
+            xb = torch.randint(0, 2, shape).float()
+            xb[0, ..., 1::2] = 1.0 if len(shape) == 2 else xb[0, ..., 1::2]          # row 0 carries quadrature ones
+            mod.reset_state()
+            if hasattr(dem, "reset_state"):
+                dem.reset_state()
+            try:
+                rb = dem(mod(xb))
+            except Exception as ex:
+                ctx.violation(key % "batched-raises", "OQPSK(normalize=%s) raised on a batch of shape %s: %s" % (nz, shape, str(ex)[:100]), dict(rep, shape=list(shape)))
+                break
+            ctx.count("roundtrips", xb.numel() // shape[-1])
+            flat_in = xb.reshape(-1, shape[-1]).tolist()
+            flat_out = rb.reshape(-1, shape[-1]).tolist() if rb.numel() == xb.numel() else None
+            bad = flat_out is None
+            if not bad:
+                for s_, r_ in zip(flat_in, flat_out):
+                    I, Q = s_[0::2], s_[1::2]
+                    exp = []
+                    for i in range(len(I)):
+                        exp += [I[i], 0 if i == 0 else Q[i - 1]]
+                    if [int(v) for v in r_] != [int(v) for v in exp]:
+                        bad = (s_, r_, exp)
+                        break
+            if bad:
+                ctx.violation(key % "roundtrip-delay-batched", "OQPSK(normalize=%s) on a batch of shape %s: a row %s comes back as %s, expected %s" % (
+                    nz, shape, [int(v) for v in bad[0]][:16] if bad is not True else "?", [int(v) for v in bad[1]][:16] if bad is not True else "shape %s" % (tuple(rb.shape),), [int(v) for v in bad[2]][:16] if bad is not True else ""), dict(rep, shape=list(shape)))
+                break
 
     # ------------------------------------------------------------------ pi/4-QPSK
     for g in (True, False):
